@@ -150,6 +150,52 @@ def K2(ctx):
             ctx.bad("K2", fk, "the leak scan no longer iterates over every stored object", fn.loc(), detail="loop")
 
 
+def K2b(ctx):
+    """The leak scan of an execution is unconditional: Execution::check_for_leaks reaches the scan of the object store on every
+    path (no early return that exempts some executions)."""
+    prog = ctx.prog
+    fk = EXEC + "::check_for_leaks"
+    fn = need_fn(ctx, "K2b", fk)
+    if fn is None:
+        return
+    inst = prog.ident(fk)
+    scans = [b for (b, t, c) in prog.sites(inst) if prog.callee_key(c) == "rt::object::Store::check_for_leaks"]
+    if scans and every_path_passes(fn.body, scans):
+        ctx.ok("K2b", fk, "objects.check_for_leaks() on every path", [site_str(prog, fk, scans[0])])
+    else:
+        ctx.bad("K2b", fk, "some executions are exempt from the leak scan (a path of Execution::check_for_leaks returns without scanning "
+                "the object store)", fn.loc(), detail="conditional")
+
+
+def K6(ctx):
+    """from_std / from_raw create the modelled Arc only after every check that can reject the call: a panic after rt::Arc::new leaves
+    a phantom object with count 1 behind, which is reported as a leak although the program holds no handle."""
+    prog = ctx.prog
+    n = 0
+    for fk in ("sync::arc::Arc::<T>::from_std",):
+        fn = need_fn(ctx, "K6", fk)
+        if fn is None:
+            continue
+        inst = prog.ident(fk)
+        body = fn.body
+        news = [b for (b, t, c) in prog.sites(inst) if prog.callee_key(c) == "rt::arc::Arc::new"]
+        if not news:
+            ctx.missing("K6", fk, "no rt::Arc::new")
+            continue
+        n += 1
+        after = set()
+        for nb in news:
+            after |= body.reachable(nb)
+        late = [(b, msg) for (b, msg) in panic_sites(prog, fk) if b in after and b not in news]
+        if late:
+            ctx.bad("K6", fk, "the modelled Arc is created before a check that can still reject the call (\"%s\"): on that panic the object "
+                    "stays in the store with count 1 and the iteration ends with a false `Arc leaked`" % (late[0][1] or "")[:60],
+                    site_str(prog, fk, late[0][0]), detail="late-check")
+        else:
+            ctx.ok("K6", fk, "all rejecting checks precede rt::Arc::new", [site_str(prog, fk, news[0])])
+    ctx.floor("K6", n, 1, "from_std")
+
+
 K3_ROWS = [
     ("rt::arc::State::check_for_leaks", "Arc leaked", ("rt::arc::State", "ref_cnt", "Ne", 0)),
     ("rt::alloc::State::check_for_leaks", "Allocation leaked", ("rt::alloc::State", "is_dropped", None, None)),
